@@ -93,6 +93,17 @@ CHECKS.update({
          'level other: the lexical side (regular expressions of timeunits.py) is not modelled in TLA+; strings come from the harness renderer and output strings are '
          'split by a harness regex; rounding ties are excluded; floats up to 1e7 s with <= 6 decimals; TLC and the JSON reader are trusted', '6 C19'),
 })
+CHECKS.update({
+ 'C13': ('other', 'reference evaluation against TLA+ definitions (Intervals.tla: normal form, membership rules; laws model-checked by TLC in MC_Intervals) of cases recorded from the real TimeInterval/DateInterval/DateTimeInterval; notations rendered by the harness',
+         'Intervals.tla defines the normal form (sorted full-length numeric ranges) and membership: time-of-day ranges left-closed/right-open wrapping around midnight '
+         '(equal endpoints = whole day), date ranges inclusive wrapping around the year end, date-time ranges never wrapping; TLC checks laws (wrap = complement of the '
+         'swapped range, closedness, Normal idempotent and membership-preserving) and then evaluates every recorded case: as_list() of every notation (traditional strings, '
+         'ISO strings, integer sequences of all accepted lengths, mixed ranges, sets, all separators / delimiters / terminator, blanks, month names in any case and abbreviation) '
+         '= Normal(abstract), feeding as_list() and as_string() back gives the same, membership of both endpoints and their +-1 us / +-1 day neighbours and random moments, '
+         'documented-malformed inputs raise.',
+         'level other: the lexical side (regular expressions of timeinterval.py) is not modelled in TLA+; strings come from the harness renderer; ambiguous strings the docs warn '
+         'about are not generated; weekday handling of TimeDate.parse belongs to C07; TLC, the JSON reader and datetime are trusted', '6 C13'),
+})
 NA = {}
 ALL = [f'C{n:02d}' for n in range(1, 21)]
 
